@@ -261,11 +261,14 @@ class GenCtx:
         self.pending_kinds[i] = "A"
         return i
 
-    def fresh_coo(self, arr) -> int:
-        """Schedule a new loose scipy COO matrix on the heap; returns the id it will get."""
+    def fresh_coo(self, arr=None, triplets=None) -> int:
+        """Schedule a new loose scipy COO matrix on the heap; returns the id it will get.
+        ``triplets`` = dict(data, row, col, shape): stored in exactly that (possibly unsorted) order."""
         i = self._next
         self._next += 1
-        st = {"op": "new_coo", "operands": [], "k": [], "data": enc(np.asarray(arr)), "out": [i]}
+        st = {"op": "new_coo", "operands": [], "k": [], "data": None if arr is None else enc(np.asarray(arr)), "out": [i]}
+        if triplets is not None:
+            st["triplets"] = triplets
         self.pre.append(st)
         self.pending_kinds[i] = "SP"
         return i
